@@ -18,7 +18,7 @@ import (
 func TestC18(t *testing.T) {
 	r := NewReporter(t)
 	defer r.Done()
-	r.Rule("(a) every tree with <= N nodes x {plain, PS3}: successive opens with the virtual clock advanced by {0, 1 s, 1 h, 400 d} between them, library view and over the protocol; (b) two concurrent opens+reads of the same tree under the controlled scheduler (scheduling points = leaf filesystem operations, all interleavings with <= 2/3 preemptions) for 4 representative trees; oracle: equal size, byte-equal outside the PVD/SVD creation/modification timestamps and PS3 sector-1 filler; distinct by (tree, mode, gap | schedule)")
+	r.Rule("(a) every tree with <= N nodes x {plain, PS3}: successive opens with the virtual clock advanced by {0, 1 s, 1 h, 400 d} between them, library view and over the protocol; (b) two concurrent opens+reads of the same tree under the controlled scheduler (scheduling points = leaf filesystem operations, all interleavings with <= 2/3 preemptions) for 4 representative trees; (c) an open disturbed by one deviation at every leaf filesystem operation index (EIO, EINTR, short reads of 1 / half / all-but-one / 5 / 7 / 8 bytes) fails or yields the same image and stays readable; oracle: equal size, byte-equal outside the PVD/SVD creation/modification timestamps and PS3 sector-1 filler; distinct by (tree, mode, gap | schedule)")
 	base := filepath.Join(scratchBase(), sprintf("verifh-c18-%d", os.Getpid()))
 	root := filepath.Join(base, "root")
 	defer os.RemoveAll(base)
@@ -219,19 +219,47 @@ func TestC18(t *testing.T) {
 				v.Close()
 			}
 			nops := probe.Seq()
-			for i2 := 0; i2 < 2*nops; i2++ {
-				i := i2 / 2
-				ferr := error(syscall.EIO)
-				if i2%2 == 1 {
+			// deviations: two errnos, and legal short reads of 1, half, all-but-one, 5, 7 and 8 bytes
+			const ndev = 8
+			for i2 := 0; i2 < ndev*nops; i2++ {
+				i := i2 / ndev
+				var ferr error
+				short := 0
+				switch i2 % ndev {
+				case 0:
+					ferr = syscall.EIO
+				case 1:
 					ferr = syscall.EINTR // an errno callers like to retry on
+				case 2:
+					short = 1 // a legal short read: must change nothing at all
+				case 3:
+					short = -2 // half of what was asked for
+				case 4:
+					short = -1 // all but one byte
+				default:
+					short = []int{5, 7, 8}[i2%ndev-5]
 				}
 				leaf := newVFs(afero.NewOsFs(), "leaf")
 				leaf.record = false
 				leaf.Hook = func(e FsEvent) *FsFault {
-					if e.Seq == i {
+					if e.Seq != i {
+						return nil
+					}
+					if ferr != nil {
 						return &FsFault{Err: ferr}
 					}
-					return nil
+					if e.Op != "Read" || e.N < 2 {
+						return nil
+					}
+					switch {
+					case short == -2:
+						return &FsFault{Short: (e.N + 1) / 2}
+					case short == -1:
+						return &FsFault{Short: e.N - 1}
+					case short >= e.N:
+						return nil
+					}
+					return &FsFault{Short: short}
 				}
 				var img []byte
 				var size int64
@@ -259,7 +287,7 @@ func TestC18(t *testing.T) {
 					}
 				}()
 				r.Transition(1)
-				key := sprintf("%s fault@%d/%v", desc, i, ferr)
+				key := sprintf("%s fault@%d/%v/%d", desc, i, ferr, short)
 				r.State(key)
 				r.Nontrivial(key)
 				if _, isPanic := err.(errPanic); isPanic {
@@ -277,7 +305,7 @@ func TestC18(t *testing.T) {
 				}
 				if d := maskedEqual(solo, img, mask); d != "" {
 					r.Outcome("faulted-open-differs")
-					r.Violation("C18:faulted-open-differs", sprintf("%s: an open disturbed by an I/O error at leaf operation %d succeeded with a different image (size %d vs %d): %s", desc, i, size, len(solo), d), map[string]any{"tree": tr.Nodes, "ps3": ps3, "fault_at": i})
+					r.Violation("C18:faulted-open-differs", sprintf("%s: an open disturbed by an I/O error or short read at leaf operation %d succeeded with a different image (size %d vs %d): %s", desc, i, size, len(solo), d), map[string]any{"tree": tr.Nodes, "ps3": ps3, "fault_at": i})
 					continue
 				}
 				r.Outcome("faulted-open-same")
